@@ -613,6 +613,26 @@ def register(w):
         out["paths"], out["time"] = 1, time.time() - t0
         return out
     w.add_contract(Contract(f"{MO}:<bounded-T4-T7>", kind="custom", custom=bounded_dag, props=["C02", "C08", "C12"], witnesses=["C02_transpose_dag_family"]))
+
+    # ---- bounded stand-in for T12 (Swish), T13 (rsqrt, env-gated), T14 (Dropout) and the two shape-propagation passes
+    def bounded_misc(world, c, out):
+        import time
+        from pyvc.run import run_witness
+        t0 = time.time()
+        target = f"{MO}:rewrite_mul_sigmoid_as_swish_ir+rewrite_mul_rsqrt_as_div_ir+inline_dropout_training_mode_constants_ir+propagate_*_shapes_ir"
+        for oname, wn, bound in (
+                ("T12-T14_and_shape_propagation_change_no_output_and_leave_no_false_declaration", "C02_misc_rewrites_family",
+                 "36 Mul/Sigmoid graphs (operand order, same/different value, Sigmoid or Mul output observed, opset 23/24), the rsqrt pattern with the gate off, Dropout with training_mode constant False / graph input, 3 elementwise chains with undeclared intermediates and size-1 constants of higher rank; each pass alone and the whole optimize_graph"),
+                ("T14_dropout_with_training_mode_Not_of_a_constant_True_stays_a_valid_model", "D27_dropout_not_true", "Dropout(x, ratio, Not(True constant)), the Not output observed or not; the pass alone and the whole optimize_graph")):
+            holds, detail = run_witness(wn, timeout=1800)
+            d = {"oid": f"{target}#bounded:{oname}", "kind": "bounded", "status": "discharged" if holds else ("refuted" if holds is False else "unknown"), "backend": "enumerated",
+                 "time": time.time() - t0, "instances": 1, "trivial": 0, "bounded": bound, "note": f"not under contract: the real passes are run on an enumerated family of graphs; {detail}"[:700]}
+            if holds is False:
+                d.update(args={"witness": wn}, replay={"reproduced": True, "detail": detail}, formula="", model=detail)
+            out["obls"].append(d)
+        out["paths"], out["time"] = 1, time.time() - t0
+        return out
+    w.add_contract(Contract(f"{MO}:<bounded-T12-T14>", kind="custom", custom=bounded_misc, props=["C02", "C08"], witnesses=["C02_misc_rewrites_family"]))
     w.trust("A2/A3 a pointwise operator whose other operands are broadcast scalars commutes with Transpose; a node whose op_type is in ALLOWED_ELEMWISE denotes the ONNX operator of that name (custom-domain nodes emitted by jax2onnx are functions named <Name>_<n> or contrib operators with the same pointwise meaning)")
 
 
